@@ -6,7 +6,7 @@ From Coq Require Import List Arith NArith Bool Lia.
 From TX Require Import Base.Val Model.ConnCode Proofs.ConnCode Gen.C06.
 Import ListNotations.
 
-Definition impl_cfg : cfg := {| use_claim := impl_use_claim; create_cleanup := impl_create_cleanup; use_adm := impl_use_adm; purge_revoked := false |}.
+Definition impl_cfg : cfg := {| use_claim := impl_use_claim; create_cleanup := impl_create_cleanup; use_adm := impl_use_adm; purge_revoked := false; claim_lease := None |}.
 
 Fixpoint solo (C : cfg) (P : params) (fuel : nat) (t : lo) (s : sh) : list nat :=
   match fuel with
@@ -56,6 +56,20 @@ Lemma side_key_families_cluster_visible :
   forallb (fun p => Nat.eqb (snd p) 2 || Nat.eqb (snd p) 3) key_categories = true /\
   forallb (fun op => existsb (fun p => Nat.eqb (fst p) op) key_categories) required_ops = true.
 Proof. vm_compute. split; reflexivity. Qed.
+
+(* lifetimes the real calls ask for (regenerated, whole seconds, fresh 10-minute code) against the model's:
+   - the claim marker outlives the code's remaining activation window at the moment it is taken (hypothesis of
+     C06_claim_cannot_lapse_within_window / inv_dl; a capped lease breaks this line);
+   - the model's `claim_ttl` (remaining window), `adm_ttl` and the code records' lifetime are the real ones. *)
+Definition ttl_of (op : nat) : N :=
+  match find (fun p => Nat.eqb (fst p) op) key_ttl_s with Some p => snd p | None => 0%N end.
+Lemma side_claim_lifetime_covers_window :
+  impl_use_claim = true -> claim_lifetime_covers_window = true /\ ttl_of 3 = code_window_s.
+Proof. vm_compute. intros _. split; reflexivity. Qed.
+Lemma side_marker_lifetimes_match_model :
+  (impl_use_adm = true -> ttl_of 16 = adm_ttl) /\ ttl_of 8 = code_window_s /\ ttl_of 9 = code_window_s /\
+  code_window_s = p_win P0.
+Proof. vm_compute. repeat split; intros; reflexivity. Qed.
 
 (* the quota defaults are positive (a zero quota would reject every activation) *)
 Lemma side_quota_defaults_positive : 0 < DefaultMaxActiveCodesPerClient /\ 0 < DefaultMaxActiveMappingsPerClient.
